@@ -177,6 +177,27 @@ func init() {
 		}
 		return Str{Sym: ts}
 	})
+	// ByteIn(name, set): a fresh byte constrained to the bytes of set (no forking)
+	reg(rtPkg+"ByteIn", func(fr *frame, a []Value) Value {
+		v := fr.w.path.fresh(concStr(fr, a[0], "name"), smt.BV(8))
+		set := concStr(fr, a[1], "set")
+		fr.w.path.assertPC(byteInSet(v, set))
+		return v
+	})
+	reg(rtPkg+"StringIn", func(fr *frame, a []Value) Value {
+		name := concStr(fr, a[0], "name")
+		n := int(fr.concInt(a[1], "StringIn n"))
+		set := concStr(fr, a[2], "set")
+		ts := make([]*smt.Term, n)
+		for i := range ts {
+			ts[i] = fr.w.path.fresh(fmt.Sprintf("%s[%d]", name, i), smt.BV(8))
+			fr.w.path.assertPC(byteInSet(ts[i], set))
+		}
+		if n == 0 {
+			return Str{}
+		}
+		return Str{Sym: ts}
+	})
 	reg(rtPkg+"Choose", func(fr *frame, a []Value) Value {
 		n := int(fr.concInt(a[1], "Choose n"))
 		c := fr.w.path.choose(n)
@@ -767,6 +788,31 @@ func init() {
 	})
 }
 
+// byteInSet: v is one of the bytes of set (consecutive runs become range tests).
+func byteInSet(v *smt.Term, set string) *smt.Term {
+	var present [256]bool
+	for i := 0; i < len(set); i++ {
+		present[set[i]] = true
+	}
+	c := smt.False
+	for lo := 0; lo < 256; lo++ {
+		if !present[lo] {
+			continue
+		}
+		hi := lo
+		for hi+1 < 256 && present[hi+1] {
+			hi++
+		}
+		if hi == lo {
+			c = smt.Or(c, smt.Eq(v, smt.BVC(8, uint64(lo))))
+		} else {
+			c = smt.Or(c, smt.And(smt.ULe(smt.BVC(8, uint64(lo)), v), smt.ULe(v, smt.BVC(8, uint64(hi)))))
+		}
+		lo = hi
+	}
+	return c
+}
+
 func timeDuration(d int64) interface{} { return durationStringer(d) }
 
 type durationStringer int64
@@ -857,9 +903,16 @@ func (w *Worker) assume(fr *frame, c *smt.Term) {
 		p.assertPC(c)
 		return
 	}
-	r := w.solver.CheckWith(c)
+	if p.cmodel != nil && evaluable(c) && smt.Eval(c, p.cmodel) != 0 {
+		p.assertPC(c) // the current model already satisfies it
+		return
+	}
+	r, m := p.checkSide(c)
 	if r == smt.Unsat {
 		p.abort(OutInfeasible, "assumption infeasible")
+	}
+	if m != nil {
+		defer func() { p.cmodel = m }()
 	}
 	if r == smt.Unknown {
 		p.unknowns++
